@@ -170,6 +170,9 @@ def control_program(draw):
             body.append(['wait', draw(st.sampled_from(
                 [0.25, 0.25, 0.5, 0.75, 1, 1.0, 1.5, 2]))])
         routines[nm] = {'body': body}
+        if draw(st.integers(0, 3)) == 0:
+            # the body runs nested inside the routine that is played
+            routines[nm]['nest'] = draw(st.integers(1, 2))
         top.append(['play', nm, draw(st.sampled_from(refs)),
                     draw(st.sampled_from([0, 0, None, [1, 0], [2, 0.5]]))])
     for i in range(nc):
